@@ -991,6 +991,14 @@ func rulePAIR5(w *World) []Ob {
 				case "spreadBranch":
 					print = c
 				}
+				// by role: the recursive printer of the same colourising type, handed a node
+				if g := c.Common().StaticCallee(); print == nil && callsItself(g) && strings.Contains(recvTypeName(g), "olorize") {
+					for _, a := range c.Common().Args[1:] {
+						if isNodePtr(a.Type()) {
+							print = c
+						}
+					}
+				}
 			}
 			counters := map[string]bool{}
 			for _, r := range resets {
